@@ -2,7 +2,9 @@
 Layer B of C01/C13/C09, part 5 (library side): every command list the draw path emits, in any state reachable
 through the screen operations, is admissible for the byte-level simulation (`AdmitAll`): cursor addresses are
 non-negative Go ints, every payload is the UTF-8 of a printable scalar value of the right table width followed by
-admissible combining runes, is printed at a known in-grid cursor position with a known pen, and fits in its row.
+admissible combining runes, is printed at a known in-grid cursor position with a known pen, and fits in its row; the
+`ich1` of the bottom-right corner trick (`corner_step`) is issued with the cursor in the last-but-one column on the narrow glyph
+just written there (`AdmitIch`), on a screen of at least two columns.
 No assumption about the display's contents is needed (so this also covers draws onto a corrupted display).
 -/
 import Tcell.Lemmas.LayerBCmd
@@ -125,6 +127,8 @@ structure AInv (c : DrawCfg) (s : Scr) (t : ATerm) : Prop where
   kcur : s.cells.inRange s.cx s.cy → t.cur = some (s.cx, s.cy)
   kpen : s.curstyle ≠ styleInvalid → t.pen = some s.curstyle
   ext : BInv c s
+  /-- a screen on which the bottom-right corner trick is used has at least two columns (part of `CornerSafe`) -/
+  w2 : c.cornerTrick = true → 2 ≤ s.w
 
 /-- the payload function of a UTF-8 locale -/
 def Utf8Payload (c : DrawCfg) : Prop := ∀ m comb, c.payload m comb = Utf8.encode m ++ comb.flatMap Utf8.encode
@@ -190,42 +194,15 @@ theorem payloadOk_cellTextG {c : DrawCfg} (hrw : RwOk c.rw) (hrb : RwB c.rw) (hp
       fun h => by simp only; omega⟩
   · exact payloadOk_cellText hrw hrb hp w x cm comb hc
 
-theorem drawCell_eq_plain (c : DrawCfg) (hct : c.Plain) (s : Scr) (x y : Int) :
-    s.drawCell c x y = s.drawCellPlain c x y := by
-  unfold Scr.drawCell
-  have hn : ¬ (y = s.h - 1 ∧ x = s.w - 1 ∧ c.cornerTrick = true) := by simp [hct.ct]
-  by_cases hd : ¬ (s.cells.dirty x y = true)
-  · rw [if_pos hd]; unfold Scr.drawCellPlain; rw [if_pos hd]
-  · rw [if_neg hd, if_neg hn]
-
-theorem visit_step {c : DrawCfg} (hrw : RwOk c.rw) (hrb : RwB c.rw) (hp : Utf8Payload c) (hct : c.Plain)
+/-- one `drawCellPlain` (drawCell without the corner trick) is admissible and keeps the caches right -/
+theorem plain_step {c : DrawCfg} (hrw : RwOk c.rw) (hrb : RwB c.rw) (hp : Utf8Payload c)
     {s : Scr} {t : ATerm} {x y : Int} (inv : AInv c s t) (hr : s.cells.inRange x y) :
-    AdmitAll c t (s.visit c x y).2.1 ∧ AInv c (s.visit c x y).1 (t.applyAll (s.visit c x y).2.1) ∧
-      1 ≤ (s.visit c x y).2.2 := by
-  have hrel := visit_rel c s x y
-  have hbuf := inv.buf.of_rel hrw hrel
-  have hext := inv.ext.of_rel hrel
-  have hd12 := applyAll_dims t (s.visit c x y).2.1
-  -- reduce to drawCell's cache fields
-  have hcx : (s.visit c x y).1.cx = (s.drawCellPlain c x y).1.cx ∧ (s.visit c x y).1.cy = (s.drawCellPlain c x y).1.cy ∧
-      (s.visit c x y).1.curstyle = (s.drawCellPlain c x y).1.curstyle ∧ (s.visit c x y).2.1 = (s.drawCellPlain c x y).2.1 ∧
-      (s.visit c x y).2.2 = (s.drawCellPlain c x y).2.2 := by
-    simp only [Scr.visit, drawCell_eq_plain c hct]
-    split <;> simp
-  obtain ⟨e1, e2, e3, e4, e5⟩ := hcx
-  have hir : ∀ i j, (s.visit c x y).1.cells.inRange i j ↔ s.cells.inRange i j := by
-    intro i j; simp only [inRange_iff, hrel.cw, hrel.ch]
-  suffices H : AdmitAll c t (s.drawCellPlain c x y).2.1 ∧
+    AdmitAll c t (s.drawCellPlain c x y).2.1 ∧
       (s.cells.inRange (s.drawCellPlain c x y).1.cx (s.drawCellPlain c x y).1.cy →
         (t.applyAll (s.drawCellPlain c x y).2.1).cur = some ((s.drawCellPlain c x y).1.cx, (s.drawCellPlain c x y).1.cy)) ∧
       ((s.drawCellPlain c x y).1.curstyle ≠ styleInvalid →
         (t.applyAll (s.drawCellPlain c x y).2.1).pen = some (s.drawCellPlain c x y).1.curstyle) ∧
-      1 ≤ (s.drawCellPlain c x y).2.2 by
-    rw [e4, e5]
-    refine ⟨H.1, { tw := by rw [← e4, hd12.1, inv.tw, hrel.w], th := by rw [← e4, hd12.2, inv.th, hrel.h], buf := hbuf,
-                   kcur := ?_, kpen := ?_, ext := hext }, H.2.2.2⟩
-    · intro h; rw [e1, e2]; rw [hir, e1, e2] at h; exact H.2.1 h
-    · intro h; rw [e3]; rw [e3] at h; exact H.2.2.1 h
+      1 ≤ (s.drawCellPlain c x y).2.2 := by
   cases hd : s.cells.dirty x y
   · rw [Scr.drawCellPlain_clean c s x y hd]
     refine ⟨trivial, inv.kcur, inv.kpen, ?_⟩
@@ -321,9 +298,230 @@ theorem visit_step {c : DrawCfg} (hrw : RwOk c.rw) (hrb : RwB c.rw) (hp : Utf8Pa
       rw [applyAll_append, applyAll_append, ht1, ht2]
       simp only [ATerm.applyAll, List.foldl_cons, List.foldl_nil, e3', ATerm.putAt_pen, pen2]
 
+/-! ## the bottom-right corner trick -/
+
+/-- the `px` loop of the trick stops in a column left of the corner column -/
+theorem coverStart_bounds (b : Buf) (y : Int) : ∀ (fuel : Nat) (cx x : Int), cx < x →
+    cx ≤ Scr.coverStart b y fuel cx x ∧ Scr.coverStart b y fuel cx x < x := by
+  intro fuel
+  induction fuel with
+  | zero => intro cx x h; exact ⟨Int.le_refl _, h⟩
+  | succ n ih =>
+    intro cx x h
+    rw [coverStart_succ]
+    have := rawW_pos b cx y
+    split
+    · rename_i h'; have := ih (cx + rawW b cx y) x h'; omega
+    · exact ⟨Int.le_refl _, h⟩
+
+theorem apply_goto_in (t : ATerm) (x y : Int) (hx0 : 0 ≤ x) (hx1 : x < t.w) (hy0 : 0 ≤ y) (hy1 : y < t.h) :
+    t.apply (Cmd.goto x y) = { t with cur := some (x, y) } := by
+  simp only [ATerm.apply, ATerm.clampX, ATerm.clampY]
+  have h1 : ¬ x < 0 := by omega
+  have h2 : ¬ x ≥ t.w := by omega
+  have h3 : ¬ y < 0 := by omega
+  have h4 : ¬ y ≥ t.h := by omega
+  simp only [h1, h2, h3, h4, if_false]
+
+/-- **the trick branch of drawCell is admissible** (tscreen.go drawCell, corner trick): `goto (w-2, y)`, the pen, the corner glyph — always
+one column wide —, `goto (w-2, y)`, `ich1` in exactly the situation `AdmitIch` describes, an ordinary drawCell on the cell that
+covers column `w-2`, `goto (0, 0)`; all that is needed of the screen is that it has at least two columns (`AInv.w2`).  Nothing
+about locks: this is admissibility of the byte-level simulation, not correctness of what is shown (Layer A, `visit_corner`). -/
+theorem corner_step {c : DrawCfg} (hrw : RwOk c.rw) (hrb : RwB c.rw) (hp : Utf8Payload c)
+    {s : Scr} {t : ATerm} {x y : Int} (inv : AInv c s t) (hr : s.cells.inRange x y)
+    (hd : s.cells.dirty x y = true) (hcor : y = s.h - 1 ∧ x = s.w - 1 ∧ c.cornerTrick = true) :
+    AdmitAll c t (s.drawCell c x y).2.1 ∧
+      (s.cells.inRange (s.drawCell c x y).1.cx (s.drawCell c x y).1.cy →
+        (t.applyAll (s.drawCell c x y).2.1).cur = some ((s.drawCell c x y).1.cx, (s.drawCell c x y).1.cy)) ∧
+      ((s.drawCell c x y).1.curstyle ≠ styleInvalid →
+        (t.applyAll (s.drawCell c x y).2.1).pen = some (s.drawCell c x y).1.curstyle) ∧
+      1 ≤ (s.drawCell c x y).2.2 := by
+  have hw2 := inv.w2 hcor.2.2
+  have hcw := inv.buf.cw; have hch := inv.buf.ch
+  have htw := inv.tw; have hth := inv.th
+  have hxy : 0 ≤ x ∧ x < s.w ∧ 0 ≤ y ∧ y < s.h := by simp only [inRange_iff] at hr; omega
+  have hsz := inv.ext.size
+  -- the `px` loop
+  obtain ⟨p, hpdef⟩ : ∃ p, Scr.coverStart (s.cells.setDirty x y false) y x.toNat 0 x = p := ⟨_, rfl⟩
+  have hpb := coverStart_bounds (s.cells.setDirty x y false) y x.toNat 0 x (by omega)
+  rw [hpdef] at hpb
+  rw [Scr.drawCell_corner c s x y p hd hcor hpdef]
+  -- the corner glyph
+  have hgc := getContent_wok hrw s.cells x y hr (inv.buf.wok x y)
+  have hlock : s.cells.locked (x + 1) y = false := by
+    cases h : s.cells.locked (x + 1) y
+    · rfl
+    · have := ((locked_true_iff s.cells (x + 1) y).1 h).1
+      simp only [inRange_iff] at this; omega
+  have htx1 : (s.txAt c x y).2 = 1 := txAt_last_col c s x y hcor.2.1 hlock
+  have PT := payloadOk_cellTextG hrw hrb hp s.w x (s.cells.cells x y).currMain (s.cells.cells x y).currComb (inv.ext.buf x y).1
+    (c.guardLocked && s.cells.locked (x + 1) y)
+  have htxe : s.txAt c x y = Scr.cellTextG c s.w x (obsMain c.rw (s.cells.cells x y).currMain) (s.cells.cells x y).currComb
+      (obsWidth c.rw (s.cells.cells x y).currMain) (c.guardLocked && s.cells.locked (x + 1) y) := by
+    simp only [Scr.txAt, hgc]
+  rw [← htxe] at PT
+  obtain ⟨tx, htx⟩ : ∃ tx, tx = s.txAt c x y := ⟨_, rfl⟩
+  rw [← htx] at PT htx1
+  have hpay : PayloadOk c.rw tx.1 1 := by have := PT.1; rw [htx1] at this; exact this
+  obtain ⟨style, hstyle⟩ : ∃ st, st = resolveStyle s.style (s.cells.getContent x y).2.2.1 := ⟨_, rfl⟩
+  have hsurl : style.url = "" := by
+    rw [hstyle, hgc]; unfold resolveStyle; split
+    · exact inv.ext.style
+    · exact (inv.ext.buf x y).2
+  have hsv : style ≠ styleInvalid := by
+    rw [hstyle, hgc]; exact resolveStyle_valid _ _ inv.buf.valid.1 (inv.buf.valid.2 x y)
+  have hpaintcmds : (s.paint c x y).2.1 = (if style ≠ s.curstyle then [Cmd.setPen style] else []) ++ [Cmd.put tx.1 1] := by
+    rw [Scr.paint_eq]; simp only [← hstyle, ← htx, htx1]
+  have hpaintw : (s.paint c x y).2.2 = 1 := by rw [Scr.paint_eq]; simp only [← htx, htx1]
+  -- the abstract terminal, command by command
+  let t1 : ATerm := { t with cur := some (x - 1, y) }
+  have e1 : t.apply (Cmd.goto (x - 1) y) = t1 := apply_goto_in t (x - 1) y (by omega) (by omega) hxy.2.2.1 (by omega)
+  let t2 : ATerm := { t1 with pen := some style }
+  have S2 : AdmitAll c t1 (if style ≠ s.curstyle then [Cmd.setPen style] else []) ∧
+      t1.applyAll (if style ≠ s.curstyle then [Cmd.setPen style] else []) = t2 := by
+    by_cases hne : style ≠ s.curstyle
+    · rw [if_pos hne]; exact ⟨⟨hsurl, trivial⟩, rfl⟩
+    · rw [if_neg hne]
+      have he : style = s.curstyle := Decidable.not_not.mp hne
+      have hk := inv.kpen (by rw [← he]; exact hsv)
+      rw [← he] at hk
+      refine ⟨trivial, ?_⟩
+      show t1 = t2
+      show ({ t with cur := some (x - 1, y) } : ATerm) = { t with cur := some (x - 1, y), pen := some style }
+      rw [← hk]
+  have hin2 : t2.inGrid (x - 1) y := by show 0 ≤ x - 1 ∧ x - 1 < t.w ∧ 0 ≤ y ∧ y < t.h; omega
+  let t3 : ATerm := t2.putAt (x - 1) y tx.1 1 style
+  have e3 : t2.apply (Cmd.put tx.1 1) = t3 := by
+    have : t2.apply (Cmd.put tx.1 1) = if t2.inGrid (x - 1) y then t2.putAt (x - 1) y tx.1 1 style
+        else { t2.allGarbage with cur := none, chaos := true } := rfl
+    rw [this, if_pos hin2]
+  have ad3 : Admit c t2 (Cmd.put tx.1 1) := ⟨x - 1, y, style, rfl, rfl, hin2, by show x - 1 + 1 ≤ t.w; omega, hpay⟩
+  have hw3 : t3.w = t.w := by show (t2.putAt _ _ _ _ _).w = _; rw [ATerm.putAt_w]
+  have hh3 : t3.h = t.h := by show (t2.putAt _ _ _ _ _).h = _; rw [ATerm.putAt_h]
+  let t4 : ATerm := { t3 with cur := some (x - 1, y) }
+  have e4 : t3.apply (Cmd.goto (x - 1) y) = t4 :=
+    apply_goto_in t3 (x - 1) y (by omega) (by rw [hw3]; omega) hxy.2.2.1 (by rw [hh3]; omega)
+  have hin4 : t4.inGrid (x - 1) y := by show 0 ≤ x - 1 ∧ x - 1 < t3.w ∧ 0 ≤ y ∧ y < t3.h; rw [hw3, hh3]; omega
+  have g33 : t4.grid (x - 1) y = .shown tx.1 false style := by
+    show (t2.putAt (x - 1) y tx.1 1 style).grid (x - 1) y = _
+    rw [ATerm.putAt_grid]; simp
+  have g34 : t4.grid (x - 1 + 1) y ≠ .cont := by
+    show (t2.putAt (x - 1) y tx.1 1 style).grid (x - 1 + 1) y ≠ _
+    rw [ATerm.putAt_grid]
+    split
+    · rename_i h; exact absurd h.2.2 (by omega)
+    · split
+      · intro h; cases h
+      · split
+        · intro h; cases h
+        · split
+          · intro h; cases h
+          · rename_i h4
+            split
+            · intro h; cases h
+            · intro hc; exact h4 ⟨rfl, rfl, by omega, hc⟩
+  have ad5 : Admit c t4 Cmd.insertChar :=
+    ⟨hcor.2.2, x - 1, y, tx.1, style, rfl, hin4, g33, g34, by show x - 1 + 2 = t3.w; rw [hw3]; omega⟩
+  let t5 : ATerm := t4.insertAt (x - 1) y
+  have e5 : t4.apply Cmd.insertChar = t5 := by
+    have : t4.apply Cmd.insertChar = if t4.inGrid (x - 1) y then t4.insertAt (x - 1) y
+        else { t4.allGarbage with chaos := true } := rfl
+    rw [this, if_pos hin4]
+  have hw5 : t5.w = t.w := hw3
+  have hh5 : t5.h = t.h := hh3
+  have hcur5 : t5.cur = some (x - 1, y) := rfl
+  have hpen5 : t5.pen = some style := by show (t2.putAt _ _ _ _ _).pen = _; rw [ATerm.putAt_pen]
+  -- the inner drawCell on the cell that covers column w-2
+  have hrelS2 : ScrRel s (s.cornerS2 x y p) :=
+    (ScrRel.setDirty s { s with cells := s.cells.setDirty x y false } x y false rfl rfl rfl rfl rfl rfl ⟨rfl, rfl, rfl, rfl⟩).trans
+      (ScrRel.setDirty _ (s.cornerS2 x y p) p y true rfl rfl rfl rfl rfl rfl ⟨rfl, rfl, rfl, rfl⟩)
+  have inv2 : AInv c (s.cornerS2 x y p) t5 :=
+    { tw := by rw [hw5, htw]; rfl, th := by rw [hh5, hth]; rfl, buf := inv.buf.of_rel hrw hrelS2,
+      kcur := fun _ => hcur5, kpen := fun _ => by rw [hpen5, hstyle]; rfl,
+      ext := inv.ext.of_rel hrelS2, w2 := inv.w2 }
+  have hr2 : (s.cornerS2 x y p).cells.inRange p y := by
+    simp only [inRange_iff, hrelS2.cw, hrelS2.ch]; omega
+  obtain ⟨ad6, kc6, kp6, _⟩ := plain_step hrw hrb hp inv2 hr2
+  have hrel3 := drawCellPlain_rel c (s.cornerS2 x y p) p y
+  generalize ((s.cornerS2 x y p).drawCellPlain c p y).1 = S3 at kc6 kp6 hrel3 ⊢
+  generalize ((s.cornerS2 x y p).drawCellPlain c p y).2.1 = cmds3 at ad6 kc6 kp6 ⊢
+  have hd6 := applyAll_dims t5 cmds3
+  generalize ht6 : t5.applyAll cmds3 = t6 at kc6 kp6 hd6
+  have e7 : t6.apply (Cmd.goto 0 0) = { t6 with cur := some (0, 0) } :=
+    apply_goto_in t6 0 0 (by omega) (by rw [hd6.1, hw5]; omega) (by omega) (by rw [hd6.2, hh5]; omega)
+  -- the whole list
+  have hall : t.applyAll ([Cmd.goto (x - 1) y] ++ (s.paint c x y).2.1 ++ [.goto (x - 1) y, .insertChar] ++ cmds3 ++ [.goto 0 0]) =
+      { t6 with cur := some (0, 0) } := by
+    rw [hpaintcmds]
+    simp only [applyAll_append]
+    have a1 : t.applyAll [Cmd.goto (x - 1) y] = t1 := e1
+    rw [a1, S2.2]
+    have a3 : t2.applyAll [Cmd.put tx.1 1] = t3 := e3
+    rw [a3]
+    have a4 : t3.applyAll [Cmd.goto (x - 1) y, .insertChar] = t5 := by
+      show (t3.apply (Cmd.goto (x - 1) y)).apply Cmd.insertChar = t5
+      rw [e4, e5]
+    rw [a4, ht6]
+    exact e7
+  refine ⟨?_, ?_, ?_, ?_⟩
+  · rw [hpaintcmds]
+    simp only [admitAll_append, applyAll_append]
+    have a1 : t.applyAll [Cmd.goto (x - 1) y] = t1 := e1
+    have a3 : t2.applyAll [Cmd.put tx.1 1] = t3 := e3
+    have a4 : t3.applyAll [Cmd.goto (x - 1) y, .insertChar] = t5 := by
+      show (t3.apply (Cmd.goto (x - 1) y)).apply Cmd.insertChar = t5
+      rw [e4, e5]
+    rw [a1, S2.2, a3, a4, ht6]
+    refine ⟨⟨⟨⟨⟨⟨by omega, hxy.2.2.1, by omega, by omega⟩, trivial⟩, S2.1, ad3, trivial⟩, ?_⟩, ad6⟩, ?_⟩
+    · refine ⟨⟨by omega, hxy.2.2.1, by omega, by omega⟩, ?_, trivial⟩
+      rw [e4]; exact ad5
+    · exact ⟨⟨by omega, by omega, by omega, by omega⟩, trivial⟩
+  · intro _; rw [hall]
+  · intro hne; rw [hall]; exact kp6 hne
+  · rw [hpaintw]; omega
+
+/-- one iteration of the inner loop of draw -/
+theorem visit_step {c : DrawCfg} (hrw : RwOk c.rw) (hrb : RwB c.rw) (hp : Utf8Payload c)
+    {s : Scr} {t : ATerm} {x y : Int} (inv : AInv c s t) (hr : s.cells.inRange x y) :
+    AdmitAll c t (s.visit c x y).2.1 ∧ AInv c (s.visit c x y).1 (t.applyAll (s.visit c x y).2.1) ∧
+      1 ≤ (s.visit c x y).2.2 := by
+  have hrel := visit_rel c s x y
+  have hbuf := inv.buf.of_rel hrw hrel
+  have hext := inv.ext.of_rel hrel
+  have hd12 := applyAll_dims t (s.visit c x y).2.1
+  -- reduce to drawCell's cache fields
+  have hcx : (s.visit c x y).1.cx = (s.drawCell c x y).1.cx ∧ (s.visit c x y).1.cy = (s.drawCell c x y).1.cy ∧
+      (s.visit c x y).1.curstyle = (s.drawCell c x y).1.curstyle ∧ (s.visit c x y).2.1 = (s.drawCell c x y).2.1 ∧
+      (s.visit c x y).2.2 = (s.drawCell c x y).2.2 := by
+    simp only [Scr.visit]
+    split <;> simp
+  obtain ⟨e1, e2, e3, e4, e5⟩ := hcx
+  have hir : ∀ i j, (s.visit c x y).1.cells.inRange i j ↔ s.cells.inRange i j := by
+    intro i j; simp only [inRange_iff, hrel.cw, hrel.ch]
+  suffices H : AdmitAll c t (s.drawCell c x y).2.1 ∧
+      (s.cells.inRange (s.drawCell c x y).1.cx (s.drawCell c x y).1.cy →
+        (t.applyAll (s.drawCell c x y).2.1).cur = some ((s.drawCell c x y).1.cx, (s.drawCell c x y).1.cy)) ∧
+      ((s.drawCell c x y).1.curstyle ≠ styleInvalid →
+        (t.applyAll (s.drawCell c x y).2.1).pen = some (s.drawCell c x y).1.curstyle) ∧
+      1 ≤ (s.drawCell c x y).2.2 by
+    rw [e4, e5]
+    refine ⟨H.1, { tw := by rw [← e4, hd12.1, inv.tw, hrel.w], th := by rw [← e4, hd12.2, inv.th, hrel.h], buf := hbuf,
+                   kcur := ?_, kpen := ?_, ext := hext, w2 := by rw [hrel.w]; exact inv.w2 }, H.2.2.2⟩
+    · intro h; rw [e1, e2]; rw [hir, e1, e2] at h; exact H.2.1 h
+    · intro h; rw [e3]; rw [e3] at h; exact H.2.2.1 h
+  by_cases hcor : s.cells.dirty x y = true ∧ y = s.h - 1 ∧ x = s.w - 1 ∧ c.cornerTrick = true
+  · exact corner_step hrw hrb hp inv hr hcor.1 hcor.2
+  · have e : s.drawCell c x y = s.drawCellPlain c x y := by
+      unfold Scr.drawCell
+      by_cases hd : ¬ (s.cells.dirty x y = true)
+      · rw [if_pos hd]; unfold Scr.drawCellPlain; rw [if_pos hd]
+      · have hn : ¬ (y = s.h - 1 ∧ x = s.w - 1 ∧ c.cornerTrick = true) := fun h => hcor ⟨Decidable.not_not.mp hd, h⟩
+        rw [if_neg hd, if_neg hn]
+    rw [e]; exact plain_step hrw hrb hp inv hr
+
 /-! ## rows, the double loop, a whole draw -/
 
-theorem drawRow_admits {c : DrawCfg} (hrw : RwOk c.rw) (hrb : RwB c.rw) (hp : Utf8Payload c) (hct : c.Plain) (y : Int) :
+theorem drawRow_admits {c : DrawCfg} (hrw : RwOk c.rw) (hrb : RwB c.rw) (hp : Utf8Payload c) (y : Int) :
     ∀ (fuel : Nat) (x : Int) (s : Scr) (t : ATerm), 0 ≤ x → 0 ≤ y → y < s.h → AInv c s t →
       AdmitAll c t (Scr.drawRow c y fuel x s).2 ∧ AInv c (Scr.drawRow c y fuel x s).1 (t.applyAll (Scr.drawRow c y fuel x s).2) := by
   intro fuel
@@ -336,7 +534,7 @@ theorem drawRow_admits {c : DrawCfg} (hrw : RwOk c.rw) (hrb : RwB c.rw) (hp : Ut
     · rw [if_pos hlt]; simp only
       have hr : s.cells.inRange x y := by
         have := inv.buf.cw; have := inv.buf.ch; simp only [inRange_iff]; omega
-      obtain ⟨ad, inv', hw⟩ := visit_step hrw hrb hp hct inv hr
+      obtain ⟨ad, inv', hw⟩ := visit_step hrw hrb hp inv hr
       have hh : (s.visit c x y).1.h = s.h := (visit_rel c s x y).h
       have r := ih (x + (s.visit c x y).2.2) (s.visit c x y).1 (t.applyAll (s.visit c x y).2.1) (by omega) hy0
         (by rw [hh]; exact hy1) inv'
@@ -344,7 +542,7 @@ theorem drawRow_admits {c : DrawCfg} (hrw : RwOk c.rw) (hrb : RwB c.rw) (hp : Ut
       exact ⟨⟨ad, r.1⟩, r.2⟩
     · rw [if_neg hlt]; exact ⟨trivial, inv⟩
 
-theorem drawRows_admits {c : DrawCfg} (hrw : RwOk c.rw) (hrb : RwB c.rw) (hp : Utf8Payload c) (hct : c.Plain) :
+theorem drawRows_admits {c : DrawCfg} (hrw : RwOk c.rw) (hrb : RwB c.rw) (hp : Utf8Payload c) :
     ∀ (fuel : Nat) (y : Int) (s : Scr) (t : ATerm), 0 ≤ y → AInv c s t →
       AdmitAll c t (Scr.drawRows c fuel y s).2 ∧ AInv c (Scr.drawRows c fuel y s).1 (t.applyAll (Scr.drawRows c fuel y s).2) := by
   intro fuel
@@ -355,21 +553,23 @@ theorem drawRows_admits {c : DrawCfg} (hrw : RwOk c.rw) (hrb : RwB c.rw) (hp : U
     rw [drawRows_succ]
     by_cases hlt : y < s.h
     · rw [if_pos hlt]; simp only
-      obtain ⟨ad, inv'⟩ := drawRow_admits hrw hrb hp hct y s.w.toNat 0 s t (by omega) hy0 hlt inv
+      obtain ⟨ad, inv'⟩ := drawRow_admits hrw hrb hp y s.w.toNat 0 s t (by omega) hy0 hlt inv
       have r := ih (y + 1) _ _ (by omega) inv'
       rw [admitAll_append, applyAll_append]
       exact ⟨⟨ad, r.1⟩, r.2⟩
     · rw [if_neg hlt]; exact ⟨trivial, inv⟩
 
-/-- what a draw needs to be admissible: sizes agree, the buffer invariants — nothing about the display -/
+/-- what a draw needs to be admissible: sizes agree, the buffer invariants, at least two columns where the bottom-right corner
+    trick is in use (part of Layer A's `CornerSafe`) — nothing about the display -/
 structure PreA (c : DrawCfg) (s : Scr) (t : ATerm) : Prop where
   tw : t.w = s.w
   th : t.h = s.h
   buf : BufOkS c s
   ext : BInv c s
+  w2 : c.cornerTrick = true → 2 ≤ s.w
 
-/-- **every command of a draw is admissible**, whatever the display holds -/
-theorem draw_admits {c : DrawCfg} (hrw : RwOk c.rw) (hrb : RwB c.rw) (hp : Utf8Payload c) (hct : c.Plain)
+/-- **every command of a draw is admissible**, whatever the display holds — the bottom-right corner trick included -/
+theorem draw_admits {c : DrawCfg} (hrw : RwOk c.rw) (hrb : RwB c.rw) (hp : Utf8Payload c)
     {s : Scr} {t : ATerm} (pre : PreA c s t) : AdmitAll c t (s.draw c).2 := by
   rw [draw_eq]; simp only
   generalize hs0 : ({ s with cx := -1, cy := -1, curstyle := styleInvalid } : Scr) = s0
@@ -378,7 +578,7 @@ theorem draw_admits {c : DrawCfg} (hrw : RwOk c.rw) (hrb : RwB c.rw) (hp : Utf8P
     exact { tw := pre.tw, th := pre.th, buf := ⟨pre.buf.cw, pre.buf.ch, pre.buf.wok, pre.buf.valid⟩,
             kcur := by intro h; simp only [inRange_iff] at h; omega,
             kpen := by intro h; exact absurd rfl h,
-            ext := ⟨pre.ext.buf, pre.ext.style, pre.ext.size, pre.ext.ccol⟩ }
+            ext := ⟨pre.ext.buf, pre.ext.style, pre.ext.size, pre.ext.ccol⟩, w2 := pre.w2 }
   have hcx0 : s0.cx = -1 ∧ s0.curstyle = styleInvalid := by rw [← hs0]; exact ⟨rfl, rfl⟩
   -- hide: the hide string, or (terminals without one) the cursor parked just outside the bottom-right corner
   obtain ⟨s1, c1, e1, ad1, inv1, hout, hsty⟩ : ∃ s1 c1, s0.hideCursor c = (s1, c1) ∧ AdmitAll c t c1 ∧
@@ -391,10 +591,10 @@ theorem draw_admits {c : DrawCfg} (hrw : RwOk c.rw) (hrb : RwB c.rw) (hp : Utf8P
       · exact { tw := inv0.tw, th := inv0.th, buf := ⟨inv0.buf.cw, inv0.buf.ch, inv0.buf.wok, inv0.buf.valid⟩,
                 kcur := by intro h; simp only [inRange_iff] at h; omega,
                 kpen := by intro h; exact absurd hcx0.2 h,
-                ext := ⟨inv0.ext.buf, inv0.ext.style, inv0.ext.size, inv0.ext.ccol⟩ }
+                ext := ⟨inv0.ext.buf, inv0.ext.style, inv0.ext.size, inv0.ext.ccol⟩, w2 := inv0.w2 }
       · intro h; simp only [inRange_iff] at h; omega
     · refine ⟨s0, [.hideCursor], by simp [Scr.hideCursor, hh], ⟨hh, trivial⟩, ?_, ?_, hcx0.2⟩
-      · exact { tw := inv0.tw, th := inv0.th, buf := inv0.buf, kcur := inv0.kcur, kpen := inv0.kpen, ext := inv0.ext }
+      · exact { tw := inv0.tw, th := inv0.th, buf := inv0.buf, kcur := inv0.kcur, kpen := inv0.kpen, ext := inv0.ext, w2 := inv0.w2 }
       · intro h; simp only [inRange_iff, hcx0.1] at h; omega
   rw [e1]; simp only
   generalize ht1 : t.applyAll c1 = t1 at inv1
@@ -408,12 +608,12 @@ theorem draw_admits {c : DrawCfg} (hrw : RwOk c.rw) (hrb : RwB c.rw) (hp : Utf8P
       exact { tw := inv1.tw, th := inv1.th, buf := ⟨inv1.buf.cw, inv1.buf.ch, inv1.buf.wok, inv1.buf.valid⟩,
               kcur := fun h => absurd h hout,
               kpen := by intro h; exact absurd hsty h,
-              ext := ⟨inv1.ext.buf, inv1.ext.style, inv1.ext.size, inv1.ext.ccol⟩ }
+              ext := ⟨inv1.ext.buf, inv1.ext.style, inv1.ext.size, inv1.ext.ccol⟩, w2 := inv1.w2 }
   generalize (if s1.clear then s1.clearScreen else (s1, [])) = r2 at S2
   obtain ⟨ad2, inv2⟩ := S2
   generalize ht2 : t1.applyAll r2.2 = t2 at inv2
   -- the double loop
-  obtain ⟨ad3, inv3⟩ := drawRows_admits hrw hrb hp hct r2.1.h.toNat 0 r2.1 t2 (by omega) inv2
+  obtain ⟨ad3, inv3⟩ := drawRows_admits hrw hrb hp r2.1.h.toNat 0 r2.1 t2 (by omega) inv2
   generalize hr3 : Scr.drawRows c r2.1.h.toNat 0 r2.1 = r3 at ad3 inv3
   generalize ht3 : t2.applyAll r3.2 = t3 at inv3
   -- the cursor
